@@ -1088,6 +1088,35 @@ class Executor:
         if trait == "Clone" and meth == "clone":
             used("Clone::clone (Copy types)")
             return [Outcome(st, deref(args[0]))]
+        # ---- concrete machine integers: a few inherent methods, and Range<int> iteration (`for _ in 0..n`)
+        if args and isinstance(deref(args[0]), Int) and meth in ("unsigned_abs", "abs", "pow", "wrapping_add", "wrapping_sub", "min", "max", "clone"):
+            a0 = deref(args[0])
+            used("integer " + meth)
+            if meth == "unsigned_abs":
+                return [Outcome(st, Int(abs(a0.v), a0.ty.replace("i", "u", 1)))]
+            if meth == "abs":
+                return [Outcome(st, Int(abs(a0.v), a0.ty))]
+            if meth == "clone":
+                return [Outcome(st, a0)]
+            b0 = deref(args[1])
+            if isinstance(b0, Int):
+                v_ = {"pow": lambda: a0.v ** b0.v, "wrapping_add": lambda: a0.v + b0.v, "wrapping_sub": lambda: a0.v - b0.v,
+                      "min": lambda: min(a0.v, b0.v), "max": lambda: max(a0.v, b0.v)}[meth]()
+                return [Outcome(st, Int(_wrap(v_, a0.ty), a0.ty))]
+        if args and isinstance(deref(args[0]), Struct) and ty_head_args(deref(args[0]).ty)[0] in ("Range", "RangeInclusive") :
+            rg = deref(args[0])
+            if meth == "into_iter":
+                return [Outcome(st, args[0])]
+            if meth == "next" and isinstance(args[0], Ref) and all(isinstance(x, Int) for x in rg.vals[:2]):
+                used("Range<int> as Iterator::next")
+                lo_, hi_ = rg.vals[0], rg.vals[1]
+                incl = ty_head_args(rg.ty)[0] == "RangeInclusive"
+                if lo_.v < hi_.v or (incl and lo_.v == hi_.v and not (len(rg.vals) > 2 and rg.vals[2] is True)):
+                    vals = list(rg.vals)
+                    vals[0] = Int(lo_.v + 1, lo_.ty)
+                    self.store(st, args[0], Struct(rg.ty, rg.names, vals))
+                    return [Outcome(st, Enum("Option<?>", "Some", [lo_]))]
+                return [Outcome(st, Enum("Option<?>", "None"))]
         # ---- core::mem::size_of::<T>() for the types that occur here
         if meth == "size_of" and not args:
             m = re.search(r"size_of::<(.+)>$", raw.strip())
